@@ -6,7 +6,9 @@ import (
 	"errors"
 	"fmt"
 	"github.com/jirenius/go-res/logger"
+	"net/url"
 	"os"
+	"reflect"
 	"sort"
 	"strconv"
 	"strings"
@@ -253,7 +255,7 @@ func (reqDom) Gen(r *gen.R, tier string, emit func(string)) {
 			}
 		}
 		args := []string{opName, subj, pk, r.Pick([]string{"cid1", "c.x", "", "cid1", "c d", "cid2"}), wire.Bool(r.Bool()), params, token,
-			r.Pick([]string{"", "q=1&b=2"}), pat, kinds, pickSet([]string{"m", "*", "set"}), pickSet([]string{"m", "*"}),
+			r.Pick([]string{"", "q=1&b=2", "", "q=1&b=2", "?limit=10", "?", "??", "limit=10&from=%ZZ&type=u.a", "a=1;b=2&c=3", "a=b=c&&d", "x=%41+b"}), pat, kinds, pickSet([]string{"m", "*", "set"}), pickSet([]string{"m", "*"}),
 			strconv.Itoa(r.Intn(3)), apply, strconv.Itoa(r.Intn(3))}
 		for j := 0; j < nact; j++ {
 			args = append(args, genAction(r))
@@ -460,7 +462,23 @@ func seenDesc(kind string, r *res.Request) string {
 		return string(b)
 	}
 	return strings.Join([]string{kind, r.ResourceName(), r.Method(), r.Query(), r.CID(), wire.Bool(r.IsHTTP()),
-		opt(r.RawParams()), opt(r.RawToken()), strings.Join(kv, ",")}, "|")
+		opt(r.RawParams()), opt(r.RawToken()), strings.Join(kv, ","), "pq=" + wire.Bool(parsedQueryAgrees(r))}, "|")
+}
+
+// parsedQueryAgrees: Request.ParseQuery is url.ParseQuery of the query as sent, keeping the pairs
+// that are well formed when another pair is not.
+func parsedQueryAgrees(r *res.Request) bool {
+	want, _ := url.ParseQuery(r.Query())
+	got := r.ParseQuery()
+	if len(got) != len(want) {
+		return false
+	}
+	for k, v := range want {
+		if !reflect.DeepEqual(got[k], v) {
+			return false
+		}
+	}
+	return true
 }
 
 func (reqDom) Exec(a []string) string {
